@@ -381,3 +381,14 @@ func Describe(x *XNode, indent string) string {
 	walk(x, indent)
 	return b.String()
 }
+
+// ExpandInto expands nodes written at scope s of module from into the map
+// (used by generators to pre-check what an augment would add).
+func (r *Ref) ExpandInto(nodes []*ymodel.Node, s Scope, from *ymodel.Module, into map[string]*XNode, parentKind string) {
+	owner := r.Set.Owner(from)
+	ns := from.Name
+	if owner != nil {
+		ns = owner.Name
+	}
+	r.expandNodes(nodes, s, ectx{ns: ns}, into, parentKind)
+}
